@@ -98,6 +98,30 @@ def _nres(c, Afun, Pfun, b, x, shift):
     return g if Pfun is None else Pfun(g, 2)
 
 
+def pcgls_preconditioner(c, branch, form='matrix'):
+    """the REAL PCGLS constructor with a sparse, NON-symmetric preconditioner on both of its branches (explicit inverse below config.MAX_DIM_INV, sparse solves
+    at or above it): the two applications are P^-1 x and P^-T y, and the solve run to convergence returns the solution of the shifted normal equations
+    (bounded stand-in: native, sizes 6x4)"""
+    from cuqi import config
+    import scipy.sparse as sp
+    m, n = 6, 4
+    old = config.MAX_DIM_INV; config.MAX_DIM_INV = 10 ** 6 if branch == 'explicit_inverse' else 0
+    try:
+        A = np.array([[c.real(f'A{i}{j}') for j in range(n)] for i in range(m)]); b = np.array([c.real(f'b{i}') for i in range(m)])
+        x0 = np.array([c.real(f'x0{j}') for j in range(n)]); shift = c.real('shift', lo=0, hi=2)
+        Pd = np.diag([1.0 + c.real(f'pd{j}', lo=0, hi=2) for j in range(n)]) + np.diag([c.real(f'pu{j}', lo=-1, hi=1) for j in range(n - 1)], 1)   # upper bidiagonal
+        Aarg = A if form == 'matrix' else (lambda v, flag: A @ v if flag == 1 else A.T @ v)
+        s = S.PCGLS(Aarg, b, x0.copy(), sp.csc_matrix(Pd), 400, 1e-13, shift)
+        x = np.array([c.real(f'x{j}') for j in range(n)]); y = np.array([c.real(f'y{j}') for j in range(n)])
+        c.eq('forward_application_is_P_inverse', np.asarray(s._apply_Pinv(x, 1)).ravel(), np.linalg.solve(Pd, x), tol=1e-9)
+        c.eq('adjoint_application_is_P_inverse_transposed', np.asarray(s._apply_Pinv(y, 2)).ravel(), np.linalg.solve(Pd.T, y), tol=1e-9)
+        xs, its = s.solve()
+        c.eq('converged_solution_solves_the_shifted_normal_equations', (A.T @ A + shift * np.eye(n)) @ np.asarray(xs).ravel(), A.T @ b, tol=1e-6)
+        c.eq('start_vector_not_modified', s._x0, x0, tol=0)
+    finally:
+        config.MAX_DIM_INV = old
+
+
 def cgls_init(c, form='function', precond=False):
     s, Afun, b, x0, shift, tol, Pfun = _cgls_setup(c, form, precond)
     pre, cond, body, post, names, info = loops.split_loop(type(s).solve, 0)
@@ -295,6 +319,10 @@ def jobs(tier):
         J.append(Job(f'PCGLS.solve:loop0:{form}', lambda c, form=form: cgls_step(c, form, True), 'Pinf', F('PCGLS.solve', 'PCGLS._apply_A', 'PCGLS._apply_Pinv'), _extra))
         for ad in (True, False):
             J.append(Job(f'FISTA.solve:loop0:{form}:adaptive={ad}', lambda c, form=form, ad=ad: fista_step(c, form, ad), 'Pinf', F('FISTA.solve'), _extra))
+    for branch in ('explicit_inverse', 'sparse_solves'):
+        for form in ('matrix', 'function'):
+            J.append(Job(f'PCGLS:real_constructor:nonsymmetric_sparse_preconditioner:{branch}:{form}', lambda c, br=branch, f=form: pcgls_preconditioner(c, br, f), 'B',
+                         F('PCGLS.__init__', 'PCGLS._apply_Pinv', 'PCGLS.solve'), nnum=6))
     J.append(Job('LM.solve:loop0:invariant_and_exit:m=2:n=1:sparse', lambda c: lm_loop(c, 2, 1, True), 'B', F('LM.solve', 'LM.__init__'), rtol=1e-5, nnum=12))   # sparse branch (spsolve, sparse identity): native only
     for (m_, n_) in ((2, 1),) if tier == 'quick' else ((2, 1), (1, 2), (2, 2)):
         J.append(Job(f'LM.solve:loop0:invariant_and_exit:m={m_}:n={n_}', lambda c, m_=m_, n_=n_: lm_loop(c, m_, n_), 'Pbox', F('LM.solve', 'LM.__init__'), _extra, maxpaths=2048, timeout=1500, rtol=1e-5))
